@@ -1103,6 +1103,14 @@ impl<Config: endpoint::Config> connection::Trait for ConnectionImpl<Config> {
                         //= https://www.rfc-editor.org/rfc/rfc9002#section-7.7
                         //# Senders MUST either use pacing or limit such bursts.
                         self.timers.pacing_timer.set(edt);
+                        #[cfg(aws_s2n_quic_verif)]
+                        s2n_quic_core::verif::emit(format_args!(
+                            "{{\"ev\":\"pacing\",\"ep\":\"{}\",\"conn\":{},\"t\":{},\"until\":{}}}",
+                            if Config::ENDPOINT_TYPE.is_client() { "c" } else { "s" },
+                            u64::from(self.internal_connection_id()),
+                            unsafe { timestamp.as_duration().as_micros() },
+                            unsafe { edt.as_duration().as_micros() },
+                        ));
                     }
                 }
 
